@@ -626,6 +626,18 @@ def gen_stdin(seed):
         data = data.replace(b"\r", b"")
     if rng.random() < 0.1:
         data = data.replace(b"\r\n", b"\n").replace(b"\n", b"\r\n")
+    if rng.random() < 0.35:
+        # characters that some line-splitting functions treat as line breaks and others do not
+        # (form feed, vertical tab, FS/GS/RS, NEL, LINE/PARAGRAPH SEPARATOR), inside comments
+        lines = data.split(b"\n")
+        for _ in range(rng.randint(1, 3)):
+            i = rng.randrange(len(lines))
+            ch = rng.choice([b"\x0c", b"\x0b", b"\x1c", b"\x1d", b"\x1e", b"\xc2\x85", b"\xe2\x80\xa8", b"\xe2\x80\xa9"])
+            lines.insert(i, b"-- page" + ch + b"break " + ch)
+        data = b"\n".join(lines)
+        label += "+odd-breaks"
+    if rng.random() < 0.1 and data.endswith(b"\n"):
+        data = data.rstrip(b"\r\n")
     opts = []
     fix = rng.random() < 0.2
     if fix:
